@@ -211,7 +211,7 @@ pub fn c20_describe_vs_readout(cfg: &J) {
     };
     let name = if kind == "c" { "m" } else { "h" };
     let mut seen = Vec::new();
-    let mut judge = |e: &metrique_metricsrs::MetricAccumulatorEntry<dyn metrics_024::Recorder>, when: &str, seen: &mut Vec<String>| {
+    let judge = |e: &metrique_metricsrs::MetricAccumulatorEntry<dyn metrics_024::Recorder>, when: &str, seen: &mut Vec<String>| {
         let reported = if kind == "c" { e.counter_value(name).unwrap_or(0) > 0 } else { !e.histogram_value(name).is_empty() };
         let mut units = UnitsOf(BTreeMap::new());
         metrique_writer_core::Entry::write(e, &mut units);
